@@ -78,7 +78,8 @@ LEVEL_TEXT["C10"] = {
     "text": "Theorem parse_ident_spec: for every buffer and every spec, parse_ident equals the ABI specification function (length, magic, "
             "version, class, data checked in that order, each defect reported with the bytes found); corollaries for each single defect; "
             "from_ei_data truth tables for all byte values; any-endian opens a file to the *same ElfBytes value* as the matching fixed spec "
-            "(hence identical results of every accessor). Tied to file.rs/endian.rs by differential runs with all four Rust "
+            "(hence identical results of every accessor); through ElfStream over any legal reader an identification defect is reported as "
+            "the same error (stream_ident_defect), a stream shorter than 16 bytes as BadOffset(16). Tied to file.rs/endian.rs by differential runs with all four Rust "
             "instantiations over all 256 values of EI_CLASS/EI_DATA/EI_VERSION and magic corruptions.",
     "note": COMMON_NOTE + " NativeEndian is modelled as LittleEndian (the build target); the harness checks cfg!(target_endian).",
     "technique": "Lean 4 proof (spec refinement) + exhaustive differential over ident bytes",
@@ -121,7 +122,8 @@ LEVEL_TEXT["C03"] = {
             "section data = ok [sh_offset, sh_offset+sh_size) iff the range fits without usize overflow, else SliceReadError/IntegerOverflow; "
             "SHT_NOBITS = empty; compressed = Chdr parsed at sh_offset plus payload [sh_offset+chdr_size, sh_offset+sh_size), error if shorter "
             "than the header; segment data = [p_offset, p_offset+p_filesz) and independent of p_memsz; typed views hand out section_data's "
-            "window; string-table entries start at table.start+off in the same buffer. Tied to the code by comparing (ptr-base,len) of every "
+            "window; string-table entries start at table.start+off in the same buffer; note names, descriptors and build-ids are exactly "
+            "the ABI-designated sub-windows of the note section/segment window (note_windows, typed_note_windows, with C14.parse_at_spec). Tied to the code by comparing (ptr-base,len) of every "
             "returned slice with the model's window, and by an oracle recomputing the range from the parsed header.",
     "note": COMMON_NOTE,
     "technique": "Lean 4 proof over window-valued model + differential correspondence on pointer offsets",
@@ -131,9 +133,9 @@ LEVEL_TEXT["C05"] = {
             "count = e_shnum or shdr[0].sh_size when e_shnum = 0 (e_phnum / shdr[0].sh_info at 0xffff); BadEntsize(found,expected) unless the "
             "declared entry size is the class's generated size_for; table = window [off, off+n*size) iff it fits without overflow; the located "
             "table has exactly n entries; e_shstrndx / shdr[0].sh_link rule for the name table; entsize rejection theorems for symbol tables "
-            "and the slice parser's dynamic table. Correspondence on generated files incl. counts crossing 0xff00/0xffff and every single-"
+            "and the slice parser's dynamic table, and for the version-index table (versym_bad_entsize). Correspondence on generated files incl. counts crossing 0xff00/0xffff and every single-"
             "field corruption of one object per run.",
-    "note": COMMON_NOTE + " The stream parser's locator (different validation order) is covered under C07.",
+    "note": COMMON_NOTE + " The stream parser's locator (different validation order) is proved equivalent under C07 (section_headers_equiv, program_headers_equiv, open_equiv).",
     "technique": "Lean 4 proof (definition = gABI rule) + differential correspondence + builder ground-truth oracle",
 }
 LEVEL_TEXT["C18"] = {
